@@ -162,6 +162,7 @@ type ReplayResult struct {
 	Obs         []string `json:"obs"`
 	Panic       string   `json:"panic,omitempty"`
 	Diverged    bool     `json:"diverged"`
+	DivergeMsg  string   `json:"diverge_msg,omitempty"`
 }
 
 func cmdReplay(args []string) {
@@ -285,6 +286,7 @@ func NativeReplay(repo, hroot, relPkg, batchPath, scratch, knownPath string) ([]
 	cmd.Stderr = &outb
 	runErr := cmd.Run()
 	raw := outb.String()
+	os.WriteFile(filepath.Join(sdir, filepath.Base(batchPath)+".raw.txt"), outb.Bytes(), 0o644)
 	var res []ReplayResult
 	var cur *ReplayResult
 	sc := bufio.NewScanner(strings.NewReader(raw))
@@ -305,8 +307,14 @@ func NativeReplay(repo, hroot, relPkg, batchPath, scratch, knownPath string) ([]
 			cur.Panic = strings.TrimPrefix(line, "VPANIC ")
 		case strings.HasPrefix(line, "VDIVERGE"):
 			cur.Diverged = true
+			if cur.DivergeMsg == "" {
+				cur.DivergeMsg = line
+			}
 		case strings.HasPrefix(line, "VASSUME-FAIL"):
 			cur.Diverged = true
+			if cur.DivergeMsg == "" {
+				cur.DivergeMsg = line
+			}
 		case strings.HasPrefix(line, "VEND "):
 			cur.End = strings.TrimPrefix(line, "VEND ")
 		}
